@@ -37,6 +37,14 @@ static intptr_t f3(intptr_t a, intptr_t b, intptr_t c) { return mock(a, b, c); }
 static const char *fnames[4] = { "f0", "f1", "f2", "f3" };
 static const char *pnames[3] = { "a", "b", "c" };
 
+typedef struct { int g; intptr_t a[3]; } SideCall;
+static SideCall side_pool[4096];
+static int side_used;
+static void side_callback(void *data) {
+    SideCall *sc = (SideCall *)data;
+    if (sc->g == 0) (void)f0(); else if (sc->g == 1) (void)f1(sc->a[0]); else if (sc->g == 2) (void)f2(sc->a[0], sc->a[1]); else (void)f3(sc->a[0], sc->a[1], sc->a[2]);
+}
+
 static CgreenTest dummy_test = { 0, &defaultContext, "unexpected", NULL, "unexpected-call", 0 };
 
 int main(void) {
@@ -79,6 +87,14 @@ int main(void) {
             for (char *t = strtok_r(NULL, " ", &save); t && n < 38; t = strtok_r(NULL, " ", &save)) {
                 if (t[0] == 't') cs[n++] = times_(atoi(t + 1));
                 else if (t[0] == 'r') cs[n++] = create_return_value_constraint((intptr_t)strtoll(t + 1, NULL, 10));
+                else if (t[0] == 's') {
+                    SideCall *sc = &side_pool[side_used++ % 4096];
+                    memset(sc, 0, sizeof *sc);
+                    char *colon = strchr(t, ':');
+                    sc->g = atoi(t + 1);
+                    if (colon) { int k = 0; for (char *p = colon + 1; *p && k < 3; k++) { sc->a[k] = (intptr_t)strtoll(p, &p, 10); if (*p == ',') p++; } }
+                    cs[n++] = create_with_side_effect_constraint(&side_callback, sc);
+                }
                 else if (t[0] == 'w') {
                     int p; char cmp[8]; long long v;
                     sscanf(t + 1, "%d:%2s:%lld", &p, cmp, &v);
